@@ -227,7 +227,28 @@ func runC07(tier string, seed uint64, rep *Report) {
 					}
 				}
 				if !ran {
-					rep.Violate(idx, "the timeout raised inside the try body (80% of the budget) was not handed to the catch handler before the deadline", desc)
+					// the handler has 20% of the budget to START: with the short deadlines used above that is a few
+					// milliseconds, which a loaded machine can eat. The verdict is taken on a second run with a 3 s deadline
+					// (600 ms for the handler to start)
+					w2, _ := NewWorld()
+					src2 := strings.ReplaceAll(sh.src, "@LOOPFILE@", loopFile)
+					if strings.Contains(src2, "earlier") {
+						w2.EvalText(context.Background(), "(def earlier (future (sleep 100000)))")
+						defer w2.EvalText(context.Background(), "(future-cancel earlier)")
+					}
+					ctx2, cancel2 := context.WithTimeout(context.Background(), 3*time.Second)
+					w2.EvalText(ctx2, src2)
+					cancel2()
+					ran2 := false
+					for _, v := range w2.TraceSnapshot() {
+						if s, ok := v.(string); ok && s == Kw("handler") {
+							ran2 = true
+						}
+					}
+					rep.Histogram["timed:handler-verdict-retried"]++
+					if !ran2 {
+						rep.Violate(idx, "the timeout raised inside the try body (80% of the budget) was not handed to the catch handler before the deadline (also with a 3 s deadline)", desc)
+					}
 				}
 			}
 		}
